@@ -26,7 +26,6 @@ odd columns.  When the real result disagrees with the oracle but agrees with the
 q' = round(c + dL), the violation is filed under clause C07.pixel.correspondent_rounding (its own witness class), so
 that it neither hides nor is hidden by the other findings.
 """
-import itertools
 import math
 import multiprocessing as mp
 import os
@@ -50,8 +49,8 @@ THRS = [0, 0.5, 1.0]
 ITVS = [(-2, 2), (-1, 1), (0, 2)]
 
 BOUND_TXT = {
-    "quick": "per-pixel Latin enumeration on a seeded sample of right rows (width 5: 150/config, width 4: 60/config) "
-             "+ 1600 seeded direct small-map calls + 240 validation_run calls",
+    "quick": "per-pixel Latin enumeration on a seeded sample of right rows (width 5: 100/config, width 4: 40/config) "
+             "+ 1000 seeded direct small-map calls + 200 validation_run calls",
     "thorough": "per-pixel EXHAUSTIVE on widths 5 and 4: every (column, left value, left mask, whole right row, "
                 "threshold, interval) combination + 12000 seeded direct small-map calls + 3000 validation_run calls",
 }
@@ -205,20 +204,27 @@ def check_side(ld, lm, rd, om, conf, thr, itv, offset, found, tag=""):
             if ok_m and ok_c:
                 continue
             # alternative reading for half-integer disparities: q' = round(c + dL)
+            hp = ""
             if q is not None:
                 q2 = round(c + dl)
                 if q2 != q:
+                    hp = "half-integer-left-disparity:"
                     kind2, dist2 = _expect(c, ncol, dl, rdr, thr, imin, imax, q2)
+                    wc = None
                     if _mask_ok(kind2, m, o) and _conf_ok(dist2, q2, ncol, rdr, cv):
-                        key = ("C07.pixel.correspondent_rounding",
-                               "half-integer-disparity:code-uses-round(col+d)-statement-says-col+round(d)")
+                        wc = "half-integer-disparity:code-uses-round(col+d)-statement-says-col+round(d)"
+                    elif kind2 == "flag_any" and o == m:
+                        # the observed outcome is the one of "correspondent outside" (see C07.pixel.outside_right)
+                        # taken at q', whereas q is inside
+                        wc = "half-integer-disparity:round(col+d)-outside-right-image-while-col+round(d)-inside:not-flagged"
+                    if wc is not None:
+                        key = ("C07.pixel.correspondent_rounding", wc)
                         if key not in found:
                             found[key] = (r, c, "%spixel (%d,%d) dL=%s: statement q=c+round(dL)=%d expects %s, observed "
                                                 "mask %d->%d conf %s, which is the outcome for q'=round(c+dL)=%d (%s)"
-                                          % (tag, r, c, dl, q, kind, m, o, cv, q2, kind2))
+                                          % (tag, r, c, dl, q, kind, m, o, cv, q2,
+                                             kind2 if kind2 != "flag_any" else "outside, left unflagged"))
                         continue
-            half = (not _isnan(dl)) and (dl * 2) % 2 == 1
-            hp = "half-integer-left-disparity:" if half else ""
             if not ok_m:
                 got = _got(m, o)
                 if _isnan(dl):
@@ -472,12 +478,12 @@ def run(tier, seed):
     rng = np.random.default_rng([seed, 1])
     jobs = []
     # direct small-map calls first (smallest witnesses first)
-    n_direct, n_vrun, per_job = (12000, 3000, 500) if thorough else (1600, 240, 2000)
+    n_direct, n_vrun, per_job = (12000, 3000, 500) if thorough else (1000, 200, 2000)
     for mode, n in (("direct", n_direct), ("validation_run", n_vrun)):
         for chunk in range((n + per_job - 1) // per_job):
             jobs.append((job_direct, (seed, chunk, min(per_job, n - chunk * per_job), mode)))
     # stacked per-pixel enumeration
-    for width, n_quick, rows_per_job in ((5, 150, 256), (4, 60, 256)):
+    for width, n_quick, rows_per_job in ((5, 100, 256), (4, 40, 256)):
         total = 8 ** width
         for cfg_i in range(9):
             if thorough:
